@@ -1,13 +1,14 @@
 #!/bin/sh
 # Build the framework from files on disk only (offline): translator output, Coq development,
 # correspondence harness.  Everything lands under /verif/.build or next to the sources (git-ignored).
-set -e
+# Each check rebuilds exactly what it needs from /repo's working tree, so a failure of an unrelated
+# file here is reported but does not abort the setup.
 cd "$(dirname "$0")"
 export CARGO_NET_OFFLINE=true
 mkdir -p .build evidence replays
-python3 translator/gen.py
+python3 translator/gen.py || echo "setup-warning: translator failed"
 sh coq/files.sh
-( cd coq && timeout 3000 make -j16 )
+( cd coq && timeout 3000 make -j16 -k >/verif/.build/coq-setup.log 2>&1 ) || { echo "setup-warning: some Coq files did not build"; grep -E "^File|Error" /verif/.build/coq-setup.log | head -20; }
 cp /repo/Cargo.lock harness/Cargo.lock 2>/dev/null || true
-( cd harness && timeout 3000 cargo build --offline --quiet --bins )
+( cd harness && timeout 3000 cargo build --offline --quiet --bins ) || echo "setup-warning: some harness binaries did not build"
 echo setup-ok
